@@ -50,3 +50,57 @@ def check(names: list[str]) -> dict:
         except Unavailable as e:
             status[f"Transcript.{name}"] = f"unavailable ({name}: {e}); correspondence and predicates are the only tie"
     return status
+
+
+# constructors that do nothing but store their options: (file, class, {attribute: parameter} for the stores whose
+# attribute is not the parameter's own name).  The models take the options as the caller passed them.
+CONSTRUCTORS = {
+    "HybridEigenvectorFollowing": ("transition_states/hybrid_eigenvector_following.py", {}),
+    "NudgedElasticBand": ("transition_states/nudged_elastic_band.py", {"original_image_density": "image_density"}),
+    "BasinHopping": ("global_optimisation/basin_hopping.py", {}),
+    "NetworkSampling": ("sampling/exploration.py", {}),
+    "StandardSimilarity": ("similarity/similarity.py", {}),
+    "MolecularSimilarity": ("similarity/molecular_similarity.py", {}),
+    "StandardPerturbation": ("global_optimisation/perturbations.py", {}),
+    "AtomicPerturbation": ("global_optimisation/perturbations.py", {}),
+    "MolecularPerturbation": ("global_optimisation/perturbations.py", {}),
+}
+
+
+def constructor_wiring(classes: list[str]) -> dict:
+    """every statement of `__init__` is `self.<option> = <option>` (the option under its own name, or one of the listed
+    aliases) or the initialisation of internal state with a literal; every option is stored.  `self.tol = max(tol, other)`
+    or `self.a = b` is outside this grammar."""
+    status = {}
+    for cls in classes:
+        rel, alias = CONSTRUCTORS[cls]
+        try:
+            fn = find_function(parse(rel), "__init__", cls)
+            params = [a.arg for a in fn.args.args[1:]] + [a.arg for a in fn.args.kwonlyargs]
+            stored = set()
+            for st in fn.body:
+                if isinstance(st, ast.Expr) and isinstance(st.value, ast.Constant) and isinstance(st.value.value, str):
+                    continue
+                if not (isinstance(st, ast.Assign) and len(st.targets) == 1 and isinstance(st.targets[0], ast.Attribute)
+                        and isinstance(st.targets[0].value, ast.Name) and st.targets[0].value.id == "self"):
+                    raise Unavailable(f"statement `{ast.unparse(st)[:60]}`")
+                attr, v = st.targets[0].attr, st.value
+                if isinstance(v, ast.Name) and v.id in params:
+                    if attr != v.id and alias.get(attr) != v.id:
+                        raise Unavailable(f"`self.{attr} = {v.id}`: the option is stored under another option's name")
+                    if attr in params and attr != v.id:
+                        raise Unavailable(f"`self.{attr} = {v.id}`")
+                    stored.add(v.id)
+                elif attr in params:
+                    raise Unavailable(f"`self.{attr} = {ast.unparse(v)[:40]}`: the option is not stored as given")
+                elif isinstance(v, ast.Constant) or (isinstance(v, ast.UnaryOp) and isinstance(v.operand, ast.Constant)):
+                    continue
+                else:
+                    raise Unavailable(f"`self.{attr} = {ast.unparse(v)[:40]}`")
+            missing = [q for q in params if q not in stored and q != "tag"]
+            if missing:
+                raise Unavailable(f"options never stored: {missing}")
+            status[f"Constructor.{cls}"] = f"stores its {len(stored)} options as given, nothing else"
+        except Unavailable as e:
+            status[f"Constructor.{cls}"] = f"unavailable ({cls}.__init__: {e}); correspondence and predicates are the only tie"
+    return status
